@@ -320,6 +320,9 @@ func (r *runtime) InstantiateModule(
 	// Only add guest module configuration to guests.
 	if !code.module.IsHostModule {
 		if sockConfig, ok := ctx.Value(internalsock.ConfigKey{}).(*internalsock.Config); ok {
+			// Do not write into the caller's ModuleConfig: it may be reused,
+			// possibly concurrently, with a context that has no sock config.
+			config = config.clone()
 			config.sockConfig = sockConfig
 		}
 	}
